@@ -376,6 +376,15 @@ def make_spec(stream, rng, edge_index=None):
             spec["hot"]["capacity"] = int(tot / 0.6) + 5
             spec["cold"]["capacity"] = spec["hot"]["capacity"] + 5
         opt["edge"] = which
+    elif stream == "shutdown":
+        # the public Scheduler.shutdown() called at a pause point with observations still queued: the scheduler
+        # stops taking new observations, the queued workflows go on - and the idle queries must keep telling the truth
+        spec = simgen.gen_spec(rng, pairing=rng.choice(["queue", "batch"]))
+        spec["delay"] = None
+        last = max(o["start"] + o["duration"] for o in spec["observations"])
+        opt["replay"] = False
+        opt["shutdown_at"] = rng.randint(1, max(2, last + 3))
+        opt["only_props"] = ["C19"]
     elif stream == "delays":
         spec = simgen.gen_spec(rng)
         if rng.random() < 0.6:
@@ -494,7 +503,9 @@ def run_case(job):
             # order-dependent clauses are stated for SimPy's order only
             mprops = {"C01", "C02", "C04", "C07", "C09", "C17", "C19", "C08"}
             mprops = mprops & set(props) if props else mprops
-        mon = monitors.Monitors(props=mprops)
+        if opt.get("only_props"):
+            mprops = set(opt["only_props"])
+        mon = monitors.Monitors(props=mprops, simpy_order=(opt["env"] == "simpy"))
         listeners = [mon]
         rp = None
         if opt.get("replay"):
@@ -510,7 +521,12 @@ def run_case(job):
         if opt["env"] == "chaotic":
             env = fakeenv.FakeEnv(rng=random.Random(opt["env_seed"]), policy="chaotic")
         bound = simgen.serial_bound(spec) if simgen.feasible(spec) else 300
-        rec = runsim.run_spec(spec, listeners=listeners, max_steps=min(4 * bound + 50, 6000), env=env, shared=shared)
+        if opt.get("shutdown_at"):
+            k = opt["shutdown_at"]
+            rec = runsim.run_spec(spec, listeners=listeners, until=k, resume=[k + 40],
+                                  between=lambda sim: sim.scheduler.shutdown())
+        else:
+            rec = runsim.run_spec(spec, listeners=listeners, max_steps=min(4 * bound + 50, 6000), env=env, shared=shared)
         viol = []
         adversary = spec["scheduling"]["kind"] == "adversary"
         for v in rec.get("violations", []):
@@ -519,7 +535,7 @@ def run_case(job):
             v = dict(v)
             v.setdefault("sig", v["kind"])
             viol.append(v)
-        if opt["env"] == "simpy" and not adversary:
+        if opt["env"] == "simpy" and not adversary and not opt.get("shutdown_at"):
             c5 = classify_c05(spec, rec, mon)
             if c5:
                 viol.append(c5)
